@@ -155,11 +155,15 @@ class FieldInit(Contract):
                 {'ndim': 2, 'nvdim': 0, 'value': 'number', 'valid': 'true'}]
         for d in (1, 2, 3) if tier == 'quick' else (1, 2, 3, 4):
             out += [{'ndim': d, 'nvdim': 3, 'value': 'callable', 'valid': 'true'}, {'ndim': d, 'nvdim': 1, 'value': 'callable', 'valid': 'callable'}]
+        # mesh axes that carry the very names of the default component labels, in another order: the default mapping
+        # pairs component j with axis j (by position), never by the spelling of the names
+        out += [{'ndim': 3, 'nvdim': 3, 'value': 'array', 'valid': 'array', 'dims': ('z', 'x', 'y')},
+                {'ndim': 2, 'nvdim': 2, 'value': 'array', 'valid': 'array', 'dims': ('y', 'x')}]
         return out
 
     def pre_state(s, E, cfg):
         d, nv = cfg['ndim'], cfg['nvdim']
-        mesh, assume = sym_mesh(E, d, tf=1e-12)
+        mesh, assume = sym_mesh(E, d, tf=1e-12, dims=cfg.get('dims'))
         n = [E.pyscalar(x) for x in mesh.attrs['_n'].elems]
         vk = cfg['value']
         if vk == 'array':
